@@ -119,7 +119,7 @@ theorem expand_basic (op : Op) : ∀ o ∈ op.expand, o.isBasic = true := by
 
 /-- `create_node_internal` as a store transformer -/
 def cnKV (id l v : Nat) (m : KV) : KV :=
-  upd (upd (upd m (.node id) (some (.node [l] v))) (.out id) (some (.list []))) (.inn id) (some (.list []))
+  upd (upd (upd m (.out id) (some (.list []))) (.inn id) (some (.list []))) (.node id) (some (.node [l] v))
 
 theorem run1_createNodeFrom (id l v : Nat) (s : St) :
     run1 (createNodeFrom id l v) s = (.id id, { s with kv := cnKV id l v s.kv }) := rfl
